@@ -25,15 +25,16 @@ theorem C03_scope (ops : List (Op V T)) (s : Stack V T) (name : String)
     findVar s name = visibleVar ops name ∧ findTag s name = visibleTag ops name := by
   have hv := findVar_eq_specVar_rev name ops.reverse s (by rw [List.reverse_reverse]; exact h) 0
   have ht := findTag_eq_specTag_rev name ops.reverse s (by rw [List.reverse_reverse]; exact h) 0
-  exact ⟨by simpa using hv, by simpa using ht⟩
+  exact ⟨by simpa [visibleVar] using hv, by simpa [visibleTag] using ht⟩
 
 /-- non-vacuity: file-scope `x`, parameter `x`, block `x`, a closed inner block redeclaring
     `x` and a tag `x`; the use binds to the block's `x` (id 3), the tag is independent. -/
-example :
-    let ops : List (Op Ent Nat) :=
-      [.declVar "x" (.obj 1), .enter, .declVar "x" (.obj 2), .enter, .declVar "x" (.tdef 3),
-       .declTag "x" 9, .enter, .declVar "x" (.enumc 4), .leave]
-    (∃ s, run Stack.init ops = .ok s) ∧ visibleVar ops "x" = some (.tdef 3) ∧ visibleTag ops "x" = some 9 := by
+def exampleHistory : List (Op Ent Nat) :=
+  [.declVar "x" (.obj 1), .enter, .declVar "x" (.obj 2), .enter, .declVar "x" (.tdef 3),
+   .declTag "x" 9, .enter, .declVar "x" (.enumc 4), .leave]
+
+example : (run Stack.init exampleHistory).toBool = true ∧
+    visibleVar exampleHistory "x" = some (.tdef 3) ∧ visibleTag exampleHistory "x" = some 9 := by
   decide
 
 /-- **C03 (the two name spaces are independent).**  Declaring a tag never changes what an
